@@ -4,12 +4,14 @@
 //!   fih exec   --prim P --flavour F --ops FILE --out FILE
 //!   fih random --prim P --flavour F --consts JSON --seed S --runs N --len L --out FILE
 
+mod containers;
 mod engine;
 mod event;
 mod mpmc;
 mod infra;
 mod mutex;
 mod oneshot;
+mod ring;
 mod semaphore;
 mod state;
 mod timer;
@@ -52,6 +54,9 @@ fn make_sut(prim: &str, flavour: &str, consts: &Value) -> Option<Box<dyn Sut>> {
         ("timer", "pl-local") => Box::new(timer::TimerSut::<timer::ViaLocal<Pl>>::new(consts)),
         ("timer", "vlock") => Box::new(timer::TimerSut::<timer::ViaSync<VLock>>::new(consts)),
         ("mpmc", fl) => return make_mpmc(fl, consts),
+        ("ring", fl) => return make_ring(fl, consts),
+        ("list", _) => Box::new(containers::ListSut::new(consts)),
+        ("heap", _) => Box::new(containers::HeapSut::new(consts)),
         ("state", "local") => Box::new(state::StateSut::<state::BorrowedState<Noop>>::new(consts)),
         ("state", "pl") => Box::new(state::StateSut::<state::BorrowedState<Pl>>::new(consts)),
         ("state", "vlock") => Box::new(state::StateSut::<state::BorrowedState<VLock>>::new(consts)),
@@ -73,6 +78,30 @@ fn make_sut(prim: &str, flavour: &str, consts: &Value) -> Option<Box<dyn Sut>> {
 
 use futures_intrusive::buffer::{ArrayBuf, FixedHeapBuf, GrowingHeapBuf};
 use mpmc::{Borrowed, ChanSut, SharedCh, Tag};
+
+fn make_ring(flavour: &str, consts: &Value) -> Option<Box<dyn Sut>> {
+    let cap = consts["Cap"].as_u64().unwrap_or(1);
+    macro_rules! arr {
+        ($n:expr) => {
+            Box::new(ring::RingSut::<ArrayBuf<Tag, [Tag; $n]>>::new(consts, |b| Some(b.verif_indices()), false))
+                as Box<dyn Sut>
+        };
+    }
+    Some(match flavour {
+        "array" => match cap {
+            0 => arr!(0),
+            1 => arr!(1),
+            2 => arr!(2),
+            3 => arr!(3),
+            4 => arr!(4),
+            5 => arr!(5),
+            _ => return None,
+        },
+        "fixed" => Box::new(ring::RingSut::<FixedHeapBuf<Tag>>::new(consts, |_| None, false)),
+        "growing" => Box::new(ring::RingSut::<GrowingHeapBuf<Tag>>::new(consts, |_| None, true)),
+        _ => return None,
+    })
+}
 
 fn make_mpmc(flavour: &str, consts: &Value) -> Option<Box<dyn Sut>> {
     let cap = consts["Cap"].as_u64().unwrap_or(1);
